@@ -193,7 +193,39 @@ fn cli_checks(c: char, x: &str, y: &str, rep: &mut Report, args: &Args, case: u6
         fail(rep, "recall", format!("Up recalls {:?}, submitted {:?}", show_bytes(&e.line), line1));
         return false;
     }
-    feed(&mut rig, b"\x1b[B");
+    // the recalled line is edited like any other: the cursor is a character position inside it
+    rep.evaluations += 1;
+    if e.cursor > line1.chars().count() {
+        fail(rep, "recall-cursor", format!("after Up the cursor is at {} in a line of {} characters", e.cursor, line1.chars().count()));
+        return false;
+    }
+    let mut m = RefEditor::new(48);
+    m.set(&line1, e.cursor);
+    feed(&mut rig, b"\x08");
+    m.backspace();
+    if !cmp(&rig, &m, rep, "recall-then-backspace") {
+        return false;
+    }
+    feed(&mut rig, b"\x1b[D");
+    m.left();
+    feed(&mut rig, enc.as_bytes());
+    m.insert(c);
+    if !cmp(&rig, &m, rep, "recall-then-insert") {
+        return false;
+    }
+    feed(&mut rig, b"\x1b[C");
+    m.right();
+    feed(&mut rig, b"\x1b[C");
+    m.right();
+    if !cmp(&rig, &m, rep, "recall-then-right") {
+        return false;
+    }
+    let line1b = m.text();
+    let n0 = rig.proc.log.len();
+    feed(&mut rig, b"\r");
+    if !expect_dispatch(&rig, &line1b, n0, rep, &fail) {
+        return false;
+    }
     // as command name, value, short option and value after --
     let line2 = format!("{c} {c} -{c} -- {c}", c = enc);
     let n0 = rig.proc.log.len();
